@@ -2,11 +2,13 @@
 
 CFG = {'module': 'Dnp3.Props.C07',
  'gen': ['Link.lean'],
- 'engines': ['linkaddr'],
+ 'engines': ['linkaddr', 'outstation'],
  'monitors': ['acts_only_if_addressed',
               'broadcast_never_acked',
               'link_status_answered',
-              'confirmed_once_per_toggle'],
+              'confirmed_once_per_toggle',
+              'foreign_master_silent',
+              'broadcast_never_answered'],
  'exhaustive_quick': True,
  'exhaustive_thorough': True,
  'rule': 'engine linkaddr: exhaustive link addressing table = 256 control octets x 7 destination classes x 4 '
